@@ -12,6 +12,7 @@
 #define ASSUME(c) do { if (!(c)) { printf("REPLAY: assumption not met: %s\n", #c); fflush(stdout); exit(3); } } while (0)
 #define CHECK(c, msg) do { if (!(c)) { printf("REPLAY: CHECK failed: %s\n", msg); fflush(stdout); exit(1); } } while (0)
 #define COVER(c) ((void)0)
+#define COVER_OPT(c) ((void)0)
 #define __CPROVER_assume(c) ASSUME(c)
 #define __CPROVER_assert(c, m) CHECK(c, m)
 #else
@@ -21,9 +22,11 @@
    (i.e. the solver exhibits an execution that satisfies all assumptions, all obligations, and reaches the goal) */
 #define CHECK(c, msg) __CPROVER_assume(c)
 #define COVER(c) __CPROVER_assert(!(c), "COVER " #c)
+#define COVER_OPT(c) __CPROVER_assert(!(c), "COVEROPT " #c)   /* informational goal: counted when reached, not required */
 #else
 #define CHECK(c, msg) __CPROVER_assert(c, msg)
 #define COVER(c) ((void)0)
+#define COVER_OPT(c) ((void)0)
 #endif
 #endif
 #endif
